@@ -115,7 +115,12 @@ def pptxOrder (j : Json) : Except String Json := do
   let rels ← (← getArr j "rels").toList.mapM (fun x => do
     return ({ id := chars (← getStr x "id"), target := chars (← getStr x "target"), typeLower := chars (← getStr x "type") } : Rel))
   let ids ← (← getArr j "ids").toList.mapM optStrJ
-  let order := slideOrder rels ids
+  -- the numeric `id` attribute of each entry (optional in the request; the model takes it and ignores it)
+  let nums ← match j.getObjVal? "num_ids" with
+    | .ok v => do (← v.getArr?).toList.mapM optStrJ
+    | .error _ => pure (ids.map (fun _ => none))
+  if nums.length ≠ ids.length then throw "c03.pptx_order: num_ids / ids length mismatch"
+  let order := slideOrderE rels ((nums.zip ids).map (fun p => { numId := p.1, rid := p.2 }))
   let slides := pptxExtract (fun _ => { number := 0 }) order
   return Json.mkObj [("order", Json.arr (order.map jS).toArray), ("numbers", jNats (slides.map (·.number)))]
 
@@ -172,6 +177,19 @@ def rtfPages (j : Json) : Except String Json := do
   let ps ← strArr j "pieces"
   return Json.mkObj [("pages", Json.arr ((rtfFlushPages T ps).map jS).toArray)]
 
+/-- op `c03.rtf_extract`: the scanner's event stream (code units / code points; -1 = explicit page break) ↦
+`self.pages` and the returned body text -/
+def rtfExtract (j : Json) : Except String Json := do
+  let a ← getArr j "evs"
+  let evs ← a.toList.mapM (fun x => do
+    let n ← x.getInt?
+    if n < 0 then return RtfEv.brk else return RtfEv.ch n.toNat)
+  return Json.mkObj [("pages", Json.arr ((rtfExtractPages T evs).map jS).toArray), ("text", jNats (rtfExtractText evs))]
+
+/-- op `c03.combine`: `_combine_surrogates` on code points -/
+def combine (j : Json) : Except String Json := do
+  return Json.mkObj [("out", jNats (combineSur (← natArr j "codes")))]
+
 def handle (op : String) (j : Json) : Option (Except String Json) :=
   match op with
   | "c03.units" => some (units j)
@@ -181,6 +199,8 @@ def handle (op : String) (j : Json) : Option (Except String Json) :=
   | "c03.epub" => some (epub j)
   | "c03.mbox" => some (mbox j)
   | "c03.rtf_pages" => some (rtfPages j)
+  | "c03.rtf_extract" => some (rtfExtract j)
+  | "c03.combine" => some (combine j)
   | _ => none
 
 end S2T.Drv.C03
